@@ -116,6 +116,8 @@ type ProbeObs struct {
 	OtherErr  bool     `json:"other_err"`  // some other error was recorded during the call
 	Panicked  bool     `json:"panicked"`   // the call panicked
 	Errors    []string `json:"errors,omitempty"`
+	// first "invalid use of" message, without its [file:line] prefix
+	IncompatMsg string `json:"incompat_msg,omitempty"`
 }
 
 // Obs is the outcome of evaluating one program (or design).
@@ -322,6 +324,13 @@ func (in *interp) call(c *Call) {
 		for _, e := range eval.Context.Errors[n0:] {
 			m := e.Error()
 			if strings.Contains(m, "invalid use of") {
+				if !in.probe.Incompat {
+					im := strings.SplitN(m, "\n", 2)[0]
+					if i := strings.Index(im, "invalid use of"); i >= 0 {
+						im = im[i:]
+					}
+					in.probe.IncompatMsg = im
+				}
 				in.probe.Incompat = true
 			} else {
 				in.probe.OtherErr = true
